@@ -235,16 +235,18 @@ func c05GenWills(rt *rapid.T) *hist.Case {
 }
 
 func TestC05(t *testing.T) {
-	r := evid.New("C05", "rapid: histories over 4 topics with retained / non-retained / empty-payload publishes interleaved with subscribe and re-subscribe (same filter, Retain Handling 0/1/2), shared filters, unsubscribe, reconnects; server retain available on/off; one case in four instead has retained wills (immediate and delayed, v3.1.1/v5) on the publish topics, drops, reconnects, will and retained-expiry housekeeping ticks and an observer that shows when each will was published; oracle: after each acknowledged SUBSCRIBE the retained PUBLISH packets received (by tag, retain flag set) equal the model's matching entries iff RH=0, or RH=1 and the subscription is new; none for RH=2, existing RH=1, shared filters or retain unavailable; non-trivial = a replayed topic that was overwritten or deleted earlier, or written by a will; distinct by (history, step, filter, topic, tag, RH)")
+	r := evid.New("C05", "rapid: histories over 4 topics with retained / non-retained / empty-payload publishes interleaved with subscribe and re-subscribe (1-3 filters per SUBSCRIBE, same filter again, Retain Handling 0/1/2, invalid filters that are refused in between), shared filters, unsubscribe, reconnects; server retain available on/off; one case in four instead has retained wills (immediate and delayed, v3.1.1/v5) on the publish topics, drops, reconnects, will and retained-expiry housekeeping ticks and an observer that shows when each will was published; oracle: after each acknowledged SUBSCRIBE the retained PUBLISH packets received (by tag, retain flag set) equal the model's matching entries iff RH=0, or RH=1 and the subscription is new; none for RH=2, existing RH=1, shared filters or retain unavailable; non-trivial = a replayed topic that was overwritten or deleted earlier, or written by a will; distinct by (history, step, filter, topic, tag, RH)")
 	defer r.Finish(t)
 	if evid.ReplayMode() {
 		evid.Replay(t, r, replayPath(), c05Check)
 		return
 	}
 	g := defaultHistGen()
-	g.Retain, g.EmptyPayload, g.MultiFilter = true, true, false
+	g.Retain, g.EmptyPayload, g.MultiFilter = true, true, true
 	g.Topics = []string{"a", "a/b", "b", "$x/a"}
-	g.Filters = []string{"a", "a/b", "a/#", "#", "+", "a/+", "+/b", "+/#", "b", "$x/#", "$share/g/a", "$share/g/#", "$share/h/a/+"}
+	// "a/#/x" and "b+" are invalid filters: inside a SUBSCRIBE with several filters they are refused one by one, and the
+	// filters around them are still owed their retained messages according to their own options
+	g.Filters = []string{"a", "a/b", "a/#", "#", "+", "a/+", "+/b", "+/#", "b", "$x/#", "$share/g/a", "$share/g/#", "$share/h/a/+", "a/#/x", "b+"}
 	g.WSubscribe, g.WPublish, g.WUnsubscribe, g.WDisconnect, g.WDrop, g.WConnect = 6, 8, 2, 0, 1, 1
 	g.InitAll, g.RetainBias = true, 3
 	g.MinActions = 8
